@@ -226,6 +226,10 @@ def run(run, tier, seed):
     run.add_part('labels_as_matchers', res)
     res = explore.prod(lambda: iter([{'connections': 30 if tier == 'quick' else 60}]), eval_many_connections, workers=1)
     run.add_part('many_connections', res)
+    # connections that come and go (connection-id interface): names stay distinct and `X:` selects its own messages
+    res = explore.bfs(c04.expand_sink, 4 if tier == 'quick' else 6, seed=seed, bound={'sink_depth': 4 if tier == 'quick' else 6})
+    res.violations = [v for v in res.violations if v.kind in ('sink.name_matcher', 'sink.notice', 'sink.open_return', 'sink.listing')]
+    run.add_part('connections_come_and_go', res)
     run.rule = ('letters: every index below 475254 and a lattice to 26^8 against the by-construction sequence; histories: '
                 'every history of the C02 alphabet to the stated depth + deep reuse chains + C04 interleavings, every '
                 'label of every object used as matcher; non-trivial = history with id reuse / several connections')
@@ -243,4 +247,6 @@ def replay(case):
         return eval_generator(case).viols
     if 'connections' in case:
         return eval_many_connections(case).viols
+    if 'sink_history' in case:
+        return c04.run_sink(case['sink_history'])[0]
     return eval_history(case).viols
